@@ -18,6 +18,9 @@ KERNELS = {
            "tie %r11, %r11"],
     "k6": ["opbs %r8, %r8", "tie %r9, %r9", "opsb %r8, %r10", "opsb %r9, %r10",
            "opsb %r10, %r8", "opbs %r11, %r11"],
+    # diamond: two cycles of equal latency that share their first instruction, with the two
+    # branch instructions in different worker sections
+    "k7": ["tssd %r10, %r11, %r8", "opsd %r8, %r10", "opsd %r8, %r11", "tie %r12, %r12"],
 }
 
 
@@ -195,7 +198,8 @@ def run(ctx):
     plan = [("k4", 2, -1, None), ("k4", 3, -1, None), ("k4", 1, -1, None), ("k4", 7, -1, 2),
             ("k5", 2, -1, None), ("k5", 3, -1, None), ("k5", 16, -1, 1),
             ("k6", 2, -1, None), ("k6", 3, -1, 2 if not ctx.thorough else None),
-            ("k4", 2, 50, 2 if not ctx.thorough else None), ("k5", 3, 50, 2), ("k6", 5, -1, 2)]
+            ("k4", 2, 50, 2 if not ctx.thorough else None), ("k5", 3, 50, 2), ("k6", 5, -1, 2),
+            ("k7", 2, -1, None), ("k7", 3, -1, None), ("k7", 4, -1, None)]
     if ctx.thorough:
         plan += [("k6", 9, -1, 2), ("k5", 5, -1, 3), ("k6", 3, 50, 3), ("k4", 3, 50, 3)]
     for kname, cpu, timeout, bound in plan:
